@@ -97,10 +97,15 @@ def gen_scenario(r, max_cells, entry=None):
     sc["nested_with"] = sc["mode"] != "explicit" and r.chance(0.4)
     # the accountant in force may be an instance of a user SUBCLASS of BudgetAccountant (own constructor / attributes,
     # or an auditing spend() override); so may the previous default
+    # undefined / non-finite data: a NaN or an infinity anywhere, NaN in one entry of one output cell's slice, an
+    # all-NaN slice, an all-NaN array.  A tool that returns normally on such data has answered (the answer is
+    # data-dependent) and must have charged its epsilon like on any other data; estimators refuse NaN before any charge
+    sc["bad_data"] = r.choice([None, None, None, "nan-one", "inf-one", "nan-cell-entry", "nan-slice", "all-nan"])
     sc["acc_kind"] = r.choice(["plain", "plain", "subclass", "auditing"])
     sc["decoy_kind"] = r.choice(["plain", "plain", "subclass"])
     if entry in MODELS:
         sc["kind"] = "fit"
+        sc["bad_data"] = None
         sc["n_features"] = r.randint(1, 5)
         sc["switch_default"] = r.chance(0.7)
         sc["config"] = gen_model_config(r, entry, sc["n_features"])
@@ -342,6 +347,34 @@ def state_repr(obj):
     return out
 
 
+def spoil(sc, arr, rr):
+    """put the scenario's non-finite values into the data (in place)"""
+    bad = sc.get("bad_data")
+    if not bad or arr.size == 0:
+        return arr
+    flat = arr.reshape(-1)
+    if bad == "nan-one":
+        flat[rr.randint(flat.size)] = np.nan
+    elif bad == "inf-one":
+        flat[rr.randint(flat.size)] = np.inf if rr.rand() < 0.5 else -np.inf
+    elif bad == "all-nan":
+        flat[:] = np.nan
+    else:
+        # one output cell's slice (the slice is taken along the reduced axes); whole array when the output is scalar
+        axis = sc.get("axis")
+        if arr.ndim < 2 or axis is None:
+            sl = flat
+        else:
+            red = T.reduced_axes(arr.ndim, tuple(axis) if isinstance(axis, list) else axis)
+            idx = tuple(slice(None) if ax in red else rr.randint(arr.shape[ax]) for ax in range(arr.ndim))
+            sl = arr[idx]
+        if bad == "nan-slice":
+            sl[...] = np.nan
+        else:
+            sl.flat[rr.randint(sl.size)] = np.nan
+    return arr
+
+
 def tool_call(sc, acc_kw):
     entry = sc["entry"]
     eps = sc["eps"]
@@ -352,16 +385,17 @@ def tool_call(sc, acc_kw):
         n = 12
         w = rr.rand(n) if sc.get("weights") else None
         if entry == "histogram":
-            return lambda: fn(rr.rand(n), epsilon=eps, bins=sc["bins"], range=(0, 1), weights=w, density=sc.get("density"),
+            return lambda: fn(spoil(sc, rr.rand(n), rr), epsilon=eps, bins=sc["bins"], range=(0, 1), weights=w, density=sc.get("density"),
                               random_state=rs, **acc_kw)
         if entry == "histogram2d":
-            return lambda: fn(rr.rand(n), rr.rand(n), epsilon=eps, bins=sc["bins"], range=[(0, 1), (0, 1)], weights=w,
+            return lambda: fn(spoil(sc, rr.rand(n), rr), rr.rand(n), epsilon=eps, bins=sc["bins"], range=[(0, 1), (0, 1)], weights=w,
                               density=sc.get("density"), random_state=rs, **acc_kw)
-        return lambda: fn(rr.rand(n, 2), epsilon=eps, bins=sc["bins"], range=[(0, 1), (0, 1)], weights=w,
+        return lambda: fn(spoil(sc, rr.rand(n, 2), rr), epsilon=eps, bins=sc["bins"], range=[(0, 1), (0, 1)], weights=w,
                           density=sc.get("density"), random_state=rs, **acc_kw)
     arr = rr.rand(*sc["shape"])
     if sc.get("nan_data"):
         arr.ravel()[0] = np.nan
+    spoil(sc, arr, rr)
     kw = dict(epsilon=eps, axis=sc["axis"], keepdims=sc["keepdims"], random_state=rs, **acc_kw)
     if entry != "count_nonzero":
         kw["bounds"] = (0.0, 1.0)
@@ -509,6 +543,7 @@ def verdict(sc, res):
     desc = f"{entry} ({sc['kind']}, {sc.get('layout', '')} cells={sc.get('cells', 1)} quants={sc.get('quants', 1)}) eps={eps!r} " \
            f"state={sc['state']} mode={sc['mode']}{'+nested-with-block' if sc.get('nested_with') else ''} " \
            f"decoy-default={sc['decoy']} prior={sc['prior']} accountant={sc.get('acc_kind', 'plain')}" \
+           f"{' data=' + sc['bad_data'] if sc.get('bad_data') else ''}" \
            f"{' config=' + str(sc['config']) if sc.get('config') else ''}"
     if res.get("caller_list_changed"):
         return (f"C09:{entry}:caller-list-modified", f"{desc}: the list the target was restored from (spent_budget=lst) was "
@@ -631,7 +666,7 @@ def sum_eps(snap):
 
 def key_of(sc, res):
     return (sc["entry"], sc["kind"], sc.get("layout"), sc.get("cells"), sc.get("quants"), sc["state"], sc["mode"], sc["decoy"],
-            res["kind"], len(sc["prior"]) > 0, bool(sc.get("nested_with")), sc.get("acc_kind"), str(sc.get("config")))
+            res["kind"], len(sc["prior"]) > 0, bool(sc.get("nested_with")), sc.get("acc_kind"), str(sc.get("config")), sc.get("bad_data"))
 
 
 FOREST_WITNESS = {"entry": "RandomForestClassifier", "kind": "fit", "eps": 1.0, "state": "more", "mode": "explicit",
